@@ -134,6 +134,27 @@ CodecCie(kind, bc, praw) ==
      \* version 1 stores the return address register in one byte in both section kinds (since
      \* ee1bea5; before, .eh_frame used ULEB128 - CfiCodec's optional field `rau` models that)
 
+(* section offset of the personality pointer of a CIE written at `off`: after the     *)
+(* augmentation length byte, L's byte and P's encoding byte                            *)
+PersPos(kind, bc, off) ==
+    off + LenSize(bc.fmt) + Len(CieIdBytes(kind, bc.fmt)) + Len(CieHead(kind, CodecCie(kind, bc, Zero(8)))) + 1
+    + (IF bc.lenc >= 0 THEN 1 ELSE 0) + 1
+(* section offset of the initial-location field of an FDE written at `foff` *)
+FdeAddrPos(kind, bc, foff) == foff + LenSize(bc.fmt) + CiePtrLen(kind, bc.fmt)
+(* section offset of the LSDA pointer of such an FDE when its addresses are plain (fenc = absptr) *)
+FdeLsdaPosPlain(kind, bc, foff) == FdeAddrPos(kind, bc, foff) + 2 * bc.asz + 1
+
+(* Design-level lemma (checked by TLC on every generated pointer): whatever            *)
+(* write_eh_pointer accepts reads back, through the reader's pointer meaning            *)
+(* (CfiCodec!PtrMeaning = read::parse_encoded_pointer with the section based at 0), as  *)
+(* the address that was supplied, modulo the address size; what it cannot represent     *)
+(* is an error, never a different value.                                                *)
+Bases0 == [section |-> Zero(8), text |-> None, data |-> None]
+PtrRoundTrip(enc, addr, pos, asz) ==
+    LET w == WPtr(enc, addr, pos, asz) IN
+    w.ok => LET m == PtrMeaning(enc, w.raw, asz, Bases0, N8(pos), None)
+            IN m.ok /\ m.v = MaskA(addr, asz)
+
 (* the writer always lays out address-size/segment bytes for version >= 4    *)
 (* and none otherwise; CfiCodec does so for kind "debug"; .eh_frame only     *)
 (* accepts version 1                                                         *)
@@ -141,10 +162,7 @@ EmitCie(kind, bc, off, le) ==
     IF kind = "eh" /\ bc.ver # 1 THEN WErr("UnsupportedVersion")
     ELSE IF kind = "debug" /\ bc.ver \notin {1, 3, 4} THEN WErr("UnsupportedVersion")
     ELSE IF bc.ver = 1 /\ bc.ra >= 256 THEN WErr("ValueTooLarge")
-    ELSE LET c0   == CodecCie(kind, bc, Zero(8))
-             (* section offset of the personality pointer: after L's byte and P's encoding byte *)
-             ppos == off + LenSize(bc.fmt) + Len(CieIdBytes(kind, bc.fmt)) + Len(CieHead(kind, c0)) + 1
-                     + (IF bc.lenc >= 0 THEN 1 ELSE 0) + 1
+    ELSE LET ppos == PersPos(kind, bc, off)
              wp   == IF bc.pers.some THEN WPtr(bc.pers.enc, bc.pers.addr, ppos, bc.asz) ELSE [ok |-> TRUE, raw |-> Zero(8)]
          IN IF ~wp.ok THEN wp
             ELSE LET ins == EmitCieIns(bc.ins, 1, bc.daf) IN
